@@ -138,6 +138,22 @@ fn d63() -> Result<(), String> {
 fn d64() -> Result<(), String> {
     expect_lines(run_batch(T3, "SELECT make_timestamp(2024, 2, 29, 13, 45, 12, 0) FROM t", "a;1;1\n"), &["p0: 2024-02-29 13:45:12.000"])
 }
+// D69 (C03; fixed in /repo): a condition — WHERE, HAVING, an operand of AND / OR, a WHEN clause — that is neither BOOLEAN nor
+// NULL counted as FALSE (`Value::bool()`): `WHERE v + 1` silently selected nothing, `5 AND true` was false, `CASE WHEN 5 …`
+// took the ELSE branch. A type mismatch must be reported as an error (NOT of an INT always was one). NULL still does not hold.
+fn d69() -> Result<(), String> {
+    expect_error(run_batch(T3, "SELECT k FROM t WHERE v + 1", "a;1;1\n")).map_err(|e| format!("WHERE v + 1: {}", e))?;
+    expect_error(run_batch(T3, "SELECT v AND true FROM t", "a;1;1\n")).map_err(|e| format!("v AND true: {}", e))?;
+    expect_error(run_batch(T3, "SELECT true AND k FROM t", "a;1;1\n")).map_err(|e| format!("true AND k: {}", e))?;
+    expect_error(run_batch(T3, "SELECT k OR false FROM t", "a;1;1\n")).map_err(|e| format!("k OR false: {}", e))?;
+    expect_error(run_batch(T3, "SELECT CASE WHEN v THEN 1 ELSE 2 END FROM t", "a;1;1\n")).map_err(|e| format!("CASE WHEN v: {}", e))?;
+    expect_error(run_batch(T3, "SELECT COUNT(*) FROM t WHERE k", "a;1;1\n")).map_err(|e| format!("aggregate, WHERE k: {}", e))?;
+    expect_error(run_batch(T3, "SELECT k, COUNT(*) FROM t GROUP BY k HAVING SUM(v)", "a;1;1\n")).map_err(|e| format!("HAVING SUM(v): {}", e))?;
+    // what stays: NULL does not hold (no error), the left operand that decides hides the right one, BOOLEAN conditions work
+    expect_lines(run_batch(T3, "SELECT k FROM t WHERE v + 1", "a;;1\n"), &[]).map_err(|e| format!("WHERE NULL: {}", e))?;
+    expect_lines(run_batch(T3, "SELECT false AND v, true OR k, v IS NULL AND w FROM t", "a;1;1\n"), &["p0: false, p1: true, p2: false"])?;
+    expect_lines(run_batch(T3, "SELECT k FROM t WHERE v > 0 AND w > 0", "a;1;1\nb;1;0\n"), &["k: 'a'"])
+}
 // D66 (C02; fixed /repo 265d413): a JSON number with a fraction or exponent was read by serde_json's default float reader
 // (significand as f64, then one multiplication / division by a power of ten), which can be one unit in the last place off
 // the nearest REAL; `f64::from_str` of the same text (a cast, a regex column) gives the nearest one. With `float_roundtrip` both agree.
@@ -444,6 +460,7 @@ pub fn all() -> Vec<Witness> {
         w!("D23", &["C08"], "aggregate DISTINCT without HAVING keeps duplicates", d23),
         w!("D63", &["C03"], "TIMESTAMP - INTERVAL (and * and /) adds the interval", d63),
         w!("D64", &["C03"], "make_timestamp with the README's seven arguments is an undefined function", d64),
+        w!("D69", &["C03"], "a condition (WHERE, HAVING, operand of AND / OR, WHEN) that is neither BOOLEAN nor NULL counts as false instead of being an error", d69),
         w!("D66", &["C02"], "a JSON number with fraction / exponent is not the nearest REAL (one unit in the last place off f64::from_str of the same text)", d66),
         w!("D60", &["C11"], "REAL keys 0.0 / -0.0: follow mode and batch mode show different representatives of one group", d60),
         w!("D65", &["C11"], "follow mode, CSV, aggregate statement: the header was shown on the first screen only (fixed e80a2b6)", d65),
